@@ -105,7 +105,13 @@ func (w *World) access(p unsafe.Pointer, write bool, field, fn string) {
 	a := uintptr(p)
 	c := w.shadow[a]
 	if c == nil {
-		c = &cell{w: epoch{g: -1}, name: field}
+		if w.ncell < len(w.cellSlab) {
+			c = &w.cellSlab[w.ncell]
+			w.ncell++
+			*c = cell{w: epoch{g: -1}, name: field}
+		} else {
+			c = &cell{w: epoch{g: -1}, name: field}
+		}
 		w.shadow[a] = c
 		w.keep = append(w.keep, p) // keep the object alive so the address is not reused within the execution
 	}
